@@ -1,12 +1,18 @@
 """C18 — a failed storage operation can be retried and leaves no trace.
-proof (coq/Properties/C18.v over coq/Ledger/Fault.v) + storage-fault enumeration on the real
-wallet: harness/cmd/c18 replays generated histories once undisturbed (counting the numbered
-database calls of every operation) and then with the database wrapper (harness/internal/dbwrap)
-failing one chosen call (begin, get, put, delete, commit, ...) of every operation, once or
-repeatedly; the operation must report the failure or recover, nothing observable may change,
-the repeated operation must return what the fault-free twin returned (same address, same
-wallet) and the state must equal the twin's after every operation and at the end. Every run is
-also replayed on the extracted Ledger model (ocaml/C01 driver) and checked against the chain."""
+proof (coq/Properties/C18.v over coq/Ledger/Fault*.v) + storage-fault enumeration on the real
+wallet: harness/cmd/c18 replays generated histories once undisturbed (recording every numbered
+database call of every operation: kind, calling wallet functions, key) and then with the
+database wrapper (harness/internal/dbwrap) failing chosen calls (begin, get, put, delete,
+commit, ...): one call of every operation, once or repeatedly (index-rule plans), and —
+coverage-guided, quick tier — every distinct fault TARGET (operation kind, calling functions,
+call kind, key, ordinal) seen in any twin as a single fault, and every distinct target of a
+repair / reload / retry path (the calls an operation makes after a first fault) as the SECOND of
+two non-adjacent faults inside one operation.  The operation must report the failure or recover,
+nothing observable may change, the repeated operation must return what the fault-free twin
+returned (same address, same wallet), operations that run undisturbed after faulted ones must
+return the twin's results too (a later NewAddress shows a stale in-memory key counter), and the
+state must equal the twin's after every operation and at the end.  Runs are also replayed on
+the extracted Ledger model (ocaml/C01 driver) and checked against the chain."""
 import json
 import os
 import re
@@ -38,8 +44,12 @@ def main(tier, replay=None):
 
     n = 32 if tier == "quick" else 160
     out = os.path.join(c.workdir, "impl.txt")
-    args = [outs[0], "-n", str(n), "-out", out, "-j", str(V.NCPU)]
-    args += ["-quota", "5"] if tier == "quick" else ["-all"]
+    jobs = int(os.environ.get("VERIF_JOBS", V.NCPU))
+    args = [outs[0], "-n", str(n), "-out", out, "-j", str(jobs)]
+    # quick: coverage-guided plans (cmd/c18/guided.go) within a budget of runs per history; a modelled Go
+    # function whose source changed since the pin (c.drift) triples the budget and the multiplicity
+    quota, mult = (20, 2) if not c.escalated else (60, 4)
+    args += ["-guided", "-quota", str(quota), "-mult", str(mult)] if tier == "quick" else ["-all", "-pairs", "6"]
     if replay:
         rp = json.load(open(replay))
         os.environ["VERIF_SEED"] = str(rp.get("seed", c.seed))
@@ -61,9 +71,12 @@ def main(tier, replay=None):
         if rc != 0:
             return c.finish(TRUSTED, no_input_break="harness cmd/c18 failed to run: " + (o + e)[-1500:])
 
+    c.log("harness:", stats[:160])
     model_in = os.path.join(c.workdir, "model.txt")
     runs, traces, harness_err = [], [], []
     foreign, scripts, calls = {}, {}, {}
+    targets = {1: {}, 2: {}}     # phase -> target -> (histories that have it, histories it was faulted in)
+    observers = [0, 0, 0]        # histories, with a NewAddress of the restored wallet after its import, NewAddress calls that follow an operation on their wallet
     with open(model_in, "w") as mf:
         for l in V.read_lines(out):
             if l.startswith("M "):
@@ -80,11 +93,20 @@ def main(tier, replay=None):
                 scripts[int(f[1])] = l
                 m = re.search(r"foreign=(\d+)", l)
                 foreign[f[1]] = m.group(1) if m else "0"
+                m = re.search(r"newaddr_after_import=(\d+) newaddr_after_op_on_wallet=(\d+)", l)
+                if m:
+                    observers[0] += 1
+                    observers[1] += 1 if int(m.group(1)) > 0 else 0
+                    observers[2] += int(m.group(2))
+            elif l.startswith("G "):
+                f = l.split(" ")
+                targets[int(f[1])][f[2]] = (int(f[3].split("=")[1]), int(f[4].split("=")[1]))
             elif l.startswith("X "):
                 harness_err.append(l)
     rc, mo, me = V.sh("%s < %s" % (exe, model_in), timeout=3000)
     if rc != 0:
         return c.finish(TRUSTED, no_input_break="model driver failed: " + me[-1500:])
+    c.log("model: %d lines of output" % len(mo.splitlines()))
 
     def rerun(h, rid):
         only = rid.split(":", 1)[1] if ":" in rid and not rid.endswith(":twin") else ""
@@ -107,7 +129,7 @@ def main(tier, replay=None):
             if ":" in x:
                 k, v = x.split(":")
                 kinds[k] = kinds.get(k, 0) + int(v)
-                distinct.add(h + "|" + kv.get("plan", "") + "|" + k)
+                distinct.add(rid + "|" + k)
         if " VIOL " in l:
             key, what = l.split(" VIOL ", 1)[1].split(" ", 1)
             c.violation(key, "history %s run %s: %s" % (h, rid, what[:1500]), rerun(h, rid))
@@ -143,6 +165,22 @@ def main(tier, replay=None):
         else:
             c.violation("faulted-run-vs-model:%s" % kind, "history %s run %s (agrees with its twin): %s" % (h, rid, what), rerun(h, rid))
 
+    tcov = {}
+    for ph, name in ((1, "single_fault_targets"), (2, "second_fault_targets_in_repair_paths")):
+        per, missed = {}, []
+        for t, (seen, hit) in sorted(targets[ph].items()):
+            lab = t[2:].split("|")[0] if t.startswith("2|") else t.split("|")[0]
+            a = per.setdefault(lab, [0, 0])
+            a[0] += 1
+            a[1] += 1 if hit else 0
+            if not hit:
+                missed.append(t)
+        tcov[name] = {"seen": len(targets[ph]), "faulted": sum(v[1] for v in per.values()),
+                      "by_operation_kind_seen_faulted": per, "not_faulted": missed[:60]}
+    c.log("fault targets: single %d/%d, second-in-repair-path %d/%d" % (
+        tcov["single_fault_targets"]["faulted"], tcov["single_fault_targets"]["seen"],
+        tcov["second_fault_targets_in_repair_paths"]["faulted"], tcov["second_fault_targets_in_repair_paths"]["seen"]))
+
     brk = None
     if harness_err and not c.violations:
         brk = "the harness could not run %d histories/runs: %s" % (len(harness_err), harness_err[0][:600])
@@ -153,7 +191,15 @@ def main(tier, replay=None):
                 "remove, block / reorg announcement, background import or removal work): database call number j of the operation fails (plans: fixed j, "
                 "j counted from the operation's last call = the commit and the puts before it, j at a fraction of the operation's calls; quick tier samples "
                 "plans, thorough tier takes every j), once or repeatedly (the first retry fails at the same call again; two consecutive calls for background "
-                "work and announcements). distinct_nontrivial = distinct (history, plan, kind of failing call). " + stats,
+                "work and announcements); quick tier in addition coverage-guided explicit plans (cmd/c18/guided.go): every distinct fault target of any twin "
+                "as a single fault, every distinct target of a repair / reload / retry path as the second of two non-adjacent faults of one operation "
+                "(call k and the d-th call after it, numbered in the faulted run; thorough tier: every pair k <= 6, 2 <= d <= 12 as uniform plans), each in up to "
+                "`mult` histories; the NewAddress that follows a faulted operation on the same wallet runs undisturbed and is compared with the twin's. "
+                "distinct_nontrivial = distinct (history, plan, kinds of the failing calls). " + stats,
+        "fault_target_coverage": tcov,
+        "budget": {"runs_per_history": quota if tier == "quick" else "all", "multiplicity": mult if tier == "quick" else None, "escalated_by_model_source_drift": bool(c.escalated)},
+        "observer_newaddress": {"histories": observers[0], "histories_with_newaddress_of_restored_wallet_after_import": observers[1],
+                                "newaddress_calls_following_an_operation_on_their_wallet": observers[2]},
         "histories": len(scripts),
         "faulted_runs": len(runs),
         "operation_reported_failure": nfail, "operation_recovered": nrec, "retried_in_background": nbg,
